@@ -2,7 +2,9 @@
 From Refinery Require Export Lib.Base Model.Metrics.
 
 (* c_obs: the result of every MGet, in order (None = not found; values are integral floats) *)
-Record case := { c_ops : list mop; c_obs : list (option Z) }.
+(* c_race: names whose first operations were performed by several goroutines released together
+   (fresh names, never registered or registered concurrently) *)
+Record case := { c_ops : list mop; c_race : list N; c_obs : list (option Z) }.
 
 Definition model_agrees (c : case) : bool :=
   list_eqb (option_eqb Z.eqb) (snd (mrun false minit (c_ops c))) (c_obs c).
@@ -31,7 +33,7 @@ Definition expected (pre : list mop) (name : N) : option (mkind * Z) :=
   | _ => None
   end.
 
-Fixpoint mmon (pre_rev : list mop) (ops : list mop) (obs : list (option Z)) : codes :=
+Fixpoint mmon (race : list N) (pre_rev : list mop) (ops : list mop) (obs : list (option Z)) : codes :=
   match ops with
   | [] => match obs with [] => [] | _ => [15%N] end
   | MGet n :: r =>
@@ -39,15 +41,16 @@ Fixpoint mmon (pre_rev : list mop) (ops : list mop) (obs : list (option Z)) : co
       | [] => [15%N]
       | x :: xs =>
           (match expected (rev pre_rev) n, x with
-           | Some (KCounter, e), Some v => if v <? e then [10%N] else if e <? v then [11%N] else []
+           | Some (KCounter, e), Some v => if v =? e then [] else if mem_N n race then [16%N]
+                                           else if v <? e then [10%N] else [11%N]
            | Some (KGauge, e), Some v => if v =? e then [] else [12%N]
-           | Some (KUpDown, e), Some v => if v =? e then [] else [13%N]
-           | Some _, None => [14%N]
+           | Some (KUpDown, e), Some v => if v =? e then [] else if mem_N n race then [16%N] else [13%N]
+           | Some _, None => if mem_N n race then [16%N] else [14%N]
            | _, _ => []
-           end) ++ mmon (MGet n :: pre_rev) r xs
+           end) ++ mmon race (MGet n :: pre_rev) r xs
       end
-  | o :: r => mmon (o :: pre_rev) r obs
+  | o :: r => mmon race (o :: pre_rev) r obs
   end.
 
 Definition check (c : case) : codes :=
-  (if model_agrees c then [] else [code_mismatch]) ++ mmon [] (c_ops c) (c_obs c).
+  (if model_agrees c then [] else [code_mismatch]) ++ mmon (c_race c) [] (c_ops c) (c_obs c).
